@@ -54,12 +54,14 @@ def _table(res):
     return t
 
 
-def model_runs(chk, out):
-    """(A).  Runs in a thread next to the campaign; results are put into `out`."""
+def model_runs(chk, out, thorough):
+    """(A).  Runs in a thread next to the campaign; results are put into `out`.
+    quick: one payload seed per section (VALS = {3}); thorough: two (VALS = {3, 11})."""
     try:
         w = 4
-        out["req"] = vlib.tlc("LibFile", "LibFileRequired", workers=w, timeout=900)
-        out["inv"] = vlib.tlc("LibFile", "LibFileAsWrittenInv", workers=w, timeout=900)
+        q = "" if thorough else "Q"
+        out["req"] = vlib.tlc("LibFile", "LibFileRequired" + q, workers=w, timeout=900)
+        out["inv"] = vlib.tlc("LibFile", "LibFileAsWrittenInv" + q, workers=w, timeout=900)
         out["asw"] = vlib.tlc("LibFile", "LibFileAsWritten", workers=w, timeout=900, coverage=True)
         out["nosum"] = vlib.tlc("LibFile", "LibFileRequiredNoSum", workers=w, timeout=900)
         out["ar_req"] = vlib.tlc("ArFile", "ArFileRequired", workers=w, timeout=900)
@@ -104,8 +106,10 @@ def validate(chk, events):
             # some line is outside the spec's vocabulary: the harness is wrong, not the compiler
             raise vlib.MachineryError("trace chunk %d not accepted by TraceLibFile (stopped after %s of %d lines)" %
                                       (n, r.diameter, len(c)))
-        if acc["rejected"] != len([i for i in rejected if any(e["id"] == i for e in c)]) and acc["rejected"] > len(rejected):
-            raise vlib.MachineryError("trace chunk %d: rejected count mismatch" % n)
+        ids = set(e["id"] for e in c)
+        if acc["rejected"] != len([i for i in rejected if i in ids]):
+            raise vlib.MachineryError("trace chunk %d: TLC counted %d rejected cases, %d were exported" %
+                                      (n, acc["rejected"], len([i for i in rejected if i in ids])))
     return rejected
 
 
@@ -119,7 +123,7 @@ def run(chk, tier):
     thorough = tier == "thorough"
 
     mres = {}
-    th = threading.Thread(target=model_runs, args=(chk, mres))
+    th = threading.Thread(target=model_runs, args=(chk, mres, thorough))
     th.start()
 
     # (B) the campaign on real files
@@ -266,5 +270,37 @@ def replay(d):
 
 
 SELFTEST_NOTES = """
-(filled in at the end of the file by the builder; see below)
+Binding demonstration (2026-10-04, quick tier, unchanged tree = /repo 7a01893, known_findings.jsonl in place;
+each mutation made in a scratch worktree, VERIF_SRC=<worktree>/aldor/aldor/src bin/verif check C17 --tier quick):
+
+ M2 lib.c libChkHeader: contiguity test of the section table disabled (`if( 0 && offset != ...`)
+      -> CAUGHT: VIOLATION al/ao (member.)tbl.offset subst -> Fault (sections read from the wrong offset), 5+ keys
+ M3 sexpr.c sxiRdSlurpSpaces: end of file inside a list closes the list instead of SX_ErrReadEOF
+      -> CAUGHT: VIOLATION fm fm.close / fm.number.* trunc -> Fault (truncated FOAM text accepted), 5+ keys
+         (no truncation of an .fm is a violation on the unchanged tree)
+ M6 archive.c arReadString: short read not reported
+      -> CAUGHT: VIOLATION al arhdr.* trunc -> Hang, arhdr.size subst -> Fault
+ M1 lib.c libChkHeader: `numSect <= LIB_INDEX_LIMIT` test removed           -> missed (exit 0): on this tree the result of
+      libChkHeader is ignored and a later "bad section name" error still makes the exit status non-zero: not observable
+ M4 lib.c libChkHeader: first-section-offset test removed                    -> missed: equivalent here (the contiguity test of
+      entry 1 and the unchanged findings for tbl.offset cover the same bytes)
+ M5 archive.c arReadNumber: any text accepted as a number                    -> missed: no outcome changes class (still Rejected/Same)
+ M10 archive.c arSeek: end-of-archive test removed                           -> exit 2 (corpus cannot be compiled: libaxllib.al unreadable)
+
+ Candidate fixes: with hooks/fix-C17-{honour-chkheader,section-table-consistency,short-reads-and-extent}.diff applied
+ (worktree, thinned thorough run, 42 398 cases) the distinct (format,class,kind,outcome) violation classes drop from 65 to 33:
+ every truncation class and every .ao header/table class disappears except `tbl.name subst -> Fault`; what remains is
+ payload substitution (.ao/.al sections, .fm text: needs an integrity check in the format, cf. LibFileRequiredNoSum) and
+ three archive-member header classes (member extent is only checked against the archive size).
+
+ Corrupted events (TraceLibFile.cfg on a one-line trace): an admissible line {exit:1, diag:true} -> accepted, 0 rejected;
+ the same line with diag:false -> rejected as "Silent"; with exit:0 -> rejected as "Garbage"; with cls:"bogus" -> no action
+ matches, the trace is not accepted (MachineryError "trace chunk not accepted").
+
+ A false alarm found and removed while building: the fault-marker regex matched the ordinary diagnostic
+ "Archive ... is truncated or corrupted"; all archive-header Fault classes it produced were harness errors, not findings.
+
+ Unchanged tree: exit 0 with seeds 20261004 (default), 11, 222 after the findings were recorded; truncations inside the LAST
+ section of an .ao (`fileid') flip between Fault/Rejected/Garbage from run to run (uninitialised buffer), so the three
+ `sect.* trunc -> Garbage` findings were confirmed by repetition (gen/libfile.py repro ... --off 9424/9428/9431).
 """
